@@ -3,6 +3,7 @@
   finding "the text after `indirect;` is again an indirect marker" (`MarkerSettable`).
 -/
 import ModVerif.Proofs.EditRefineNoPanic
+import ModVerif.Proofs.EditRefineExact
 set_option linter.unusedSimpArgs false
 namespace ModVerif.Modfile.Edit
 open ModVerif ModVerif.Modfile
@@ -11,6 +12,10 @@ open ModVerif ModVerif.Modfile
     this always holds in the Go code; for `b = false` it fails exactly when the text after `// indirect;` is itself an
     indirect marker (recorded finding `C16_violated_indirect_marker_survives`). -/
 def MarkerSettable (s : List Comment) : Prop := ∀ b, isIndirectS (sfxAfter b s) = b
+
+instance (s : List Comment) : Decidable (MarkerSettable s) :=
+  decidable_of_iff (isIndirectS (sfxAfter true s) = true ∧ isIndirectS (sfxAfter false s) = false)
+    ⟨fun h b => by cases b; exact h.2; exact h.1, fun h => ⟨h true, h false⟩⟩
 
 /-- the blank-line placeholder removal of `setVersion` -/
 def dropBlank (l : Line) : Line :=
@@ -308,5 +313,111 @@ theorem setRequireLoop_inv {A C : List Ent} (next : Nat) (rs : List Require) :
           refine ⟨r1, ?_⟩
           rw [List.append_assoc] at r2
           exact r2
+
+theorem foldl_addNewRequire_inv (ws : List Want) : ∀ e : EFile, Inv e → (∀ w ∈ ws, w.path ≠ []) →
+    Inv (ws.foldl (fun e w => addNewRequire e w.path w.vers w.indirect) e) := by
+  induction ws with
+  | nil => intro e hi _; exact hi
+  | cons w ws ih =>
+    intro e hi hne
+    exact ih _ (addNewRequire_inv e w.path w.vers w.indirect (hne w List.mem_cons_self) hi)
+      (fun x hx => hne x (List.mem_cons_of_mem _ hx))
+
+/-- **SetRequire preserves the tree invariant** — when every typed requirement is live (a Cleanup has just run, as the
+    property prescribes) and every requirement line's indirect marker can be set as requested (`MarkerSettable`, which
+    excludes exactly the recorded finding `C16_violated_indirect_marker_survives`). -/
+theorem setRequire_inv (e e' : EFile) (req : List Want) (perm : List Want → List Want) (hperm : ∀ l, (perm l).Perm l)
+    (hg : GoodWant req) (hi : Inv e) (hlive : ∀ r ∈ e.f.require, liveRq r = true)
+    (hset : ∀ r ∈ e.f.require, ∀ v ∈ view e.f.syn.stmts, v.id = r.lineId → MarkerSettable v.suffix)
+    (h : setRequire e req perm = .ok e') : Inv e' := by
+  unfold setRequire at h
+  rw [needMap_distinct true req [] (by simpa using hg.1)] at h
+  simp only [bind, Except.bind, List.nil_append] at h
+  cases hr : setRequireLoop e.f.require req e.f.syn with
+  | error err => simp [hr] at h
+  | ok res =>
+    rcases res with ⟨rq, need', syn'⟩
+    simp only [hr, pure, Except.pure, Except.ok.injEq] at h
+    subst h
+    rcases setRequireLoop_abs _ _ _ _ _ _ hg hr with ⟨_, hsub⟩
+    rcases setRequireLoop_inv (A := segA_require e.f) (C := segC_require e.f) e.next e.f.require [] req e.f.syn rq need' syn'
+      hg hlive hi.tree (by simp only [List.nil_append]; rw [← entries_require]; exact hi.mtch) hset hr with ⟨hw', hm'⟩
+    have hi1 : Inv (⟨{ e.f with require := rq, syn := syn' }, e.next⟩ : EFile) := by
+      refine ⟨hw', ?_, hi.tinv.of_same rfl rfl rfl (Nat.le_refl _)⟩
+      simp only [List.nil_append] at hm'
+      rw [entries_require]; exact hm'
+    have hne : ∀ w ∈ perm need', w.path ≠ [] := fun w hw => hg.2 w (hsub.subset ((hperm need').subset hw))
+    exact sortBlocks_inv _ (foldl_addNewRequire_inv (perm need') _ hi1 hne)
+
+/-! ### the requirement lines of the tree after SetRequire -/
+
+theorem verbs_ne_require : B "module" ≠ B "require" ∧ B "go" ≠ B "require" ∧ B "toolchain" ≠ B "require" ∧
+    B "godebug" ≠ B "require" ∧ B "exclude" ≠ B "require" ∧ B "replace" ≠ B "require" ∧ B "retract" ≠ B "require" ∧
+    B "tool" ≠ B "require" := by decide +kernel
+
+/-- with the invariant, a live line whose verb is `require` is the line of a live typed requirement -/
+theorem Inv.require_line_entry {e : EFile} (hi : Inv e) (v : VLine) (hv : v ∈ view e.f.syn.stmts)
+    (hverb : v.toks.head? = some (B "require")) :
+    ∃ r ∈ e.f.require, liveRq r = true ∧ r.lineId = v.id ∧ v.toks = [B "require", autoQuote r.mod.path, r.mod.version] ∧
+      isIndirectS v.suffix = r.indirect := by
+  rcases hi.line_entry v hv with ⟨en, hen, hid, hacc⟩
+  rcases verbs_ne_require with ⟨n1, n2, n3, n4, n5, n6, n7, n8⟩
+  simp only [entries, List.mem_append, List.mem_map, Option.mem_toList, entsOf, List.mem_filter] at hen
+  rcases hen with ⟨x, _, rfl⟩ | ⟨x, _, rfl⟩ | ⟨x, _, rfl⟩ | ⟨x, _, rfl⟩ | ⟨x, hx, rfl⟩ | ⟨x, _, rfl⟩ | ⟨x, _, rfl⟩ |
+    ⟨x, _, rfl⟩ | ⟨x, _, rfl⟩
+  · simp only [entM] at hacc; rw [hacc] at hverb; simp at hverb; exact absurd hverb n1
+  · simp only [entGo] at hacc; rw [hacc] at hverb; simp at hverb; exact absurd hverb n2
+  · simp only [entTc] at hacc; rw [hacc] at hverb; simp at hverb; exact absurd hverb n3
+  · simp only [entG] at hacc; rw [hacc] at hverb; simp at hverb; exact absurd hverb n4
+  · exact ⟨x, hx.1, hx.2, hid, hacc.1, hacc.2⟩
+  · simp only [entX] at hacc; rw [hacc] at hverb; simp at hverb; exact absurd hverb n5
+  · simp only [entRp, replaceToks] at hacc; rw [hacc] at hverb; simp at hverb; exact absurd hverb n6
+  · simp only [entRt] at hacc
+    rcases hacc with ⟨x', h1, _⟩ | ⟨x', y', h1, _⟩ <;> rw [h1] at hverb <;> simp at hverb <;> exact absurd hverb n7
+  · simp only [entT] at hacc
+    rcases hacc with ⟨x', h1, _⟩; rw [h1] at hverb; simp at hverb; exact absurd hverb n8
+
+/-- **SetRequire on the tree** (C16 at the level of the syntax tree): after `SetRequire want` and Cleanup, for every
+    requested entry there is a live line `require <path> <version>` carrying the indirect marker iff requested, and
+    every live `require` line of the tree is the line of a requested entry -/
+theorem setRequire_tree_exact (e e' : EFile) (want : List Want) (perm : List Want → List Want) (hperm : ∀ l, (perm l).Perm l)
+    (hg : GoodWant want) (hi : Inv e) (hlive : ∀ r ∈ e.f.require, liveRq r = true)
+    (hset : ∀ r ∈ e.f.require, ∀ v ∈ view e.f.syn.stmts, v.id = r.lineId → MarkerSettable v.suffix)
+    (h : setRequire e want perm = .ok e') :
+    Inv (cleanup e') ∧
+    (∀ w ∈ want, ∃ v ∈ view (cleanup e').f.syn.stmts, v.toks = [B "require", autoQuote w.path, w.vers] ∧
+      isIndirectS v.suffix = w.indirect) ∧
+    (∀ v ∈ view (cleanup e').f.syn.stmts, v.toks.head? = some (B "require") →
+      ∃ w ∈ want, v.toks = [B "require", autoQuote w.path, w.vers] ∧ isIndirectS v.suffix = w.indirect) := by
+  have hi' := cleanup_inv e' (setRequire_inv e e' want perm hperm hg hi hlive hset h)
+  rcases setRequire_exact e e' want perm hperm hg hi.tinv h with ⟨hp, _, hsub⟩
+  refine ⟨hi', ?_, ?_⟩
+  · intro w hw
+    have hmem : w.toReq ∈ (absOf (cleanup e').f).require := hp.symm.subset (List.mem_map.2 ⟨w, hw, rfl⟩)
+    simp only [absOf, List.mem_map] at hmem
+    rcases hmem with ⟨r, hr, hreq⟩
+    simp only [Want.toReq, EditSpec.Req.mk.injEq] at hreq
+    have hl : r.mod.path ≠ [] := by rw [hreq.1]; exact hg.2 w hw
+    rcases hi'.require_line r hr hl with ⟨v, hv, _, htoks, hind⟩
+    exact ⟨v, hv, by rw [htoks, hreq.1, hreq.2.1], by rw [hind, hreq.2.2]⟩
+  · intro v hv hverb
+    rcases hi'.require_line_entry v hv hverb with ⟨r, hr, _, _, htoks, hind⟩
+    have hmem : (⟨r.mod.path, r.mod.version, r.indirect⟩ : EditSpec.Req) ∈ (absOf (cleanup e').f).require := by
+      simp only [absOf, List.mem_map]; exact ⟨r, hr, rfl⟩
+    rcases hsub _ hmem with ⟨w, hw, heq⟩
+    simp only [Want.toReq, EditSpec.Req.mk.injEq] at heq
+    exact ⟨w, hw, by rw [htoks, heq.1, heq.2.1], by rw [hind, heq.2.2]⟩
+
+/-- no requirement line of the file has a comment whose text after `indirect;` is again an indirect marker (more
+    precisely: `setIndirect` achieves what it is asked for on every requirement line) -/
+def NoNestedIndirectMarker (e : EFile) : Prop :=
+  ∀ r ∈ e.f.require, ∀ v ∈ view e.f.syn.stmts, v.id = r.lineId → MarkerSettable v.suffix
+
+/-- a Boolean test implying `NoNestedIndirectMarker` (all lines, not only requirement lines) -/
+theorem NoNestedIndirectMarker.of_all (e : EFile)
+    (h : (view e.f.syn.stmts).all (fun v => decide (MarkerSettable v.suffix)) = true) : NoNestedIndirectMarker e := by
+  intro r _ v hv _
+  have := List.all_eq_true.1 h v hv
+  simpa using this
 
 end ModVerif.Modfile.Edit
